@@ -200,9 +200,22 @@ def build(case):
         cache._verif_other = other
     for k, v in case.get('prefill', []):
         cache[k] = E(v) if case.get('slow_eq') else v
+    if case.get('restored'):
+        # the cache the threads share came out of pickle / deepcopy (where the tree supports that at all): it has not
+        # been touched by any operation yet when the threads start
+        import copy as _copy
+        import pickle as _pickle
+        try:
+            cache = _pickle.loads(_pickle.dumps(cache)) if case['restored'] == 'pickle' else _copy.deepcopy(cache)
+        except Exception:
+            RESTORE_UNSUPPORTED[0] += 1
+            return None, None, None
     model = Model(case['max_size'], case['cls'] == 'LRU', case.get('on_miss') or False)
     st0 = model.initial([tuple(p) for p in case.get('prefill', [])])
     return cache, model, st0
+
+
+RESTORE_UNSUPPORTED = [0]
 
 
 class Outcome(object):
@@ -274,6 +287,8 @@ def check_cross(case, hist, cache):
 
 def run_one(case, first, switches, record_tids=False, free=False, handoff=False, prebuilt=None, script=None):
     cache, model, st0 = prebuilt if prebuilt is not None else build(case)
+    if cache is None:
+        return None, None, None, None, 'restore-unsupported', None
     do_op = make_do_op(cache)
     mon = monitor()
     if free:
@@ -298,6 +313,9 @@ def jsonable_hist(hist):
 def judge(case, first, switches, stats, free=False, record_tids=False, handoff=False, prebuilt=None, script=None):
     """Run one schedule and decide it.  Returns (kind or None, detail, sched)."""
     cache, model, st0, hist, status, sc = run_one(case, first, switches, record_tids, free, handoff, prebuilt, script)
+    if status == 'restore-unsupported':
+        stats.count('skipped:caches-cannot-be-pickled-or-deep-copied-on-this-tree')
+        return None, '', None
     if status == 'no-lock-attribute':
         stats.count('inconclusive:no-lock-attribute')
         return None, '', None
@@ -475,6 +493,13 @@ def directed_cases():
                      (['update', [['x', 1], ['a', 2]]], ['update', [['a', 3], ['x', 4]]])):
             out.append({'cls': cls, 'max_size': 2, 'on_miss': False, 'prefill': [['a', 0], ['b', 1]], 'small': True,
                         'programs': [[a, ['getitem', 'a']], [b]]})
+        # a cache restored from a pickle / deep copy: its very first operations race
+        for how in ('pickle', 'deepcopy'):
+            for ms in (1, 2):
+                out.append({'cls': cls, 'max_size': ms, 'on_miss': False, 'prefill': [['a', 0]], 'small': True, 'restored': how,
+                            'programs': [[['set', 'b', 2]], [['set', 'c', 3]]]})
+                out.append({'cls': cls, 'max_size': ms, 'on_miss': False, 'prefill': [['a', 0]], 'small': True, 'restored': how,
+                            'programs': [[['getitem', 'a']], [['set', 'c', 3], ['del', 'c']]]})
         # one update() call with a positional argument and keyword items against a thread reading both keys
         for ms in (2, 3):
             out.append({'cls': cls, 'max_size': ms, 'on_miss': False, 'prefill': [['a', 0]], 'small': True,
